@@ -35,6 +35,7 @@ type Obligation struct {
 	Model   map[string]string
 	Output  string
 	SMTFile string
+	Wall    float64
 	Replayed   bool   // a concrete failing input was found and replayed on the real code
 	ReplayNote string
 }
@@ -204,6 +205,9 @@ func (o *Obligation) SMT() string {
 		b.WriteString("(declare-fun mul (Int Int) Int)\n")
 		if d.boundMul {
 			b.WriteString("(assert (forall ((a!c Int) (b!c Int)) (! (= (mul a!c b!c) (mul b!c a!c)) :pattern ((mul a!c b!c)))))\n")
+			for _, A := range []string{"2305843009213693952", "4611686018427387904", "9223372036854775808"} {
+				fmt.Fprintf(&b, "(assert (forall ((a!c Int) (b!c Int)) (! (=> (and (<= 0 a!c) (<= a!c %s) (<= 0 b!c)) (<= (mul a!c b!c) (* %s b!c))) :pattern ((mul a!c b!c)))))\n", A, A)
+			}
 			// a true fact of integer multiplication, needed for products of a quantified cell with a bounded factor
 			b.WriteString("(assert (forall ((a!c Int) (b!c Int)) (! (=> (and (<= 0 a!c) (<= a!c 18446744073709551615) (<= 0 b!c)) (and (<= 0 (mul a!c b!c)) (<= (mul a!c b!c) (* 18446744073709551615 b!c)))) :pattern ((mul a!c b!c)))))\n")
 		}
@@ -363,6 +367,8 @@ func parseModel(out string) map[string]string {
 
 // Discharge runs the solver portfolio on one obligation.
 func (o *Obligation) Discharge(timeout int) {
+	tw := time.Now()
+	defer func() { o.Wall = time.Since(tw).Seconds() }()
 	if o.Goal.IsTrue() {
 		o.Status, o.Solver = "unsat", "simplifier"
 		return
@@ -388,6 +394,15 @@ func (o *Obligation) Discharge(timeout int) {
 	}
 	st, out, d := runSolver(context.Background(), solvers[0], file, first)
 	o.Seconds += d
+	if o.Kind == "vacuity" || o.Kind == "feasibility" {
+		// a contradiction in the preconditions is found at once or not at all; satisfiability of
+		// quantified preconditions cannot be confirmed by the solvers, so no second stage
+		if st != "unsat" {
+			st = "unknown"
+		}
+		o.Status, o.Solver, o.Output = st, solvers[0].name, out
+		return
+	}
 	if st == "unsat" || st == "sat" {
 		o.Status, o.Solver, o.Output = st, solvers[0].name, out
 		if st == "sat" {
